@@ -499,9 +499,67 @@ fn run_op(op: i64, data: &[u8], args: &[u64]) -> Result<Vec<i128>, String> {
                     Err(e) => err_code(&e),
                 }
             }
+            23 => {
+                use read_fonts::tables::postscript::dict::{tokens, Token};
+                use read_fonts::tables::postscript::Error as E;
+                let mut d = vec![30u8];
+                d.extend(&data);
+                let first = tokens(&d).next();
+                match first {
+                    Some(Ok(Token::Operand(_))) => vec![0, 0],
+                    Some(Ok(_)) => vec![-5],
+                    Some(Err(E::InvalidNumber)) => vec![1, 10],
+                    Some(Err(E::Read(e))) => err_code(&e),
+                    Some(Err(_)) => vec![1, 98],
+                    None => vec![-6],
+                }
+            }
             _ => unreachable!(),
         }
     })
+}
+
+/// nibbles -> BCD bytes (padded with the end nibble 0xF)
+fn pack_nibbles(n: &[u8]) -> Vec<u8> {
+    let mut v: Vec<u8> = n.to_vec();
+    if v.len() % 2 != 0 {
+        v.push(0xF);
+    }
+    v.chunks(2).map(|p| (p[0] << 4) | p[1]).collect()
+}
+/// BCD operand bodies: `len` leading characters, then one nibble of each kind, optionally more digits, end
+fn bcd_bodies(rng: &mut Rng) -> Vec<(String, Vec<u8>)> {
+    let mut out = vec![];
+    for len in 0..=40usize {
+        for (kname, kind) in [("digit", 0x7u8), ("point", 0xA), ("E", 0xB), ("Eminus", 0xC), ("reserved", 0xD), ("minus", 0xE), ("end", 0xF)] {
+            for variant in 0..3 {
+                let mut nib: Vec<u8> = (0..len).map(|_| if variant == 0 { 1 } else { (rng.below(10)) as u8 }).collect();
+                if variant == 2 && len > 2 {
+                    let p = rng.below(len as u64) as usize;
+                    nib[p] = 0xA; // one decimal point inside
+                }
+                nib.push(kind);
+                for tail in 0..3 {
+                    let mut n2 = nib.clone();
+                    for _ in 0..tail {
+                        n2.push(5);
+                    }
+                    let mut terminated = n2.clone();
+                    terminated.push(0xF);
+                    out.push((format!("bcd:len{}:{}:v{}:tail{}", len, kname, variant, tail), pack_nibbles(&terminated)));
+                    if tail == 0 {
+                        // unterminated (runs into the end of the data)
+                        let mut raw = n2.clone();
+                        if raw.len() % 2 != 0 {
+                            raw.push(1);
+                        }
+                        out.push((format!("bcd:len{}:{}:v{}:unterminated", len, kname, variant), raw.chunks(2).map(|p| (p[0] << 4) | p[1]).collect()));
+                    }
+                }
+            }
+        }
+    }
+    out
 }
 
 /// a SimpleGlyph table with `n` points (one contour ending at n-1, or no contour), no instructions,
@@ -1028,6 +1086,19 @@ fn correspondence(rng: &mut Rng, cw: &mut CaseWriter, st: &mut Stats, thorough: 
         let mc = *rng.pick(&[0x10FFFFu64, 50, 0, 0xFFFF_FFFF]);
         let gc = *rng.pick(&[0u64, 10, 35, 65535, 0xFFFF_FFFF]);
         c.emit(22, &d, &[1, mc, gc, take]);
+    }
+}
+
+/// correspondence for parse_bcd (op 23): every structured body (operand classes only)
+fn correspondence_bcd(rng: &mut Rng, cw: &mut CaseWriter, st: &mut Stats) {
+    let mut c = Corr { cw, st };
+    for (_, body) in bcd_bodies(rng) {
+        c.emit(23, &body, &[]);
+    }
+    for _ in 0..300 {
+        let n = rng.below(24) as usize;
+        let b = rng.bytes(n);
+        c.emit(23, &b, &[]);
     }
 }
 
@@ -2259,6 +2330,405 @@ fn fuzz(seed: u64, thorough: bool, st: &mut Stats, dir: &std::path::Path) {
     st.v.insert("fuzz_cases".into(), ncases.into());
 }
 
+// ------------------------------------------------------------------------------------------------
+// (c) structured hostile PostScript inputs (DICT streams, charstrings, INDEXes, CFF tables with replaced DICTs)
+// ------------------------------------------------------------------------------------------------
+struct NullSink(u64);
+impl read_fonts::tables::postscript::charstring::CommandSink for NullSink {
+    fn move_to(&mut self, _: Fixed, _: Fixed) {
+        self.0 += 1;
+    }
+    fn line_to(&mut self, _: Fixed, _: Fixed) {
+        self.0 += 1;
+    }
+    fn curve_to(&mut self, _: Fixed, _: Fixed, _: Fixed, _: Fixed, _: Fixed, _: Fixed) {
+        self.0 += 1;
+    }
+    fn close(&mut self) {
+        self.0 += 1;
+    }
+    fn hint_mask(&mut self, m: &[u8]) {
+        self.0 += m.len() as u64;
+    }
+    fn counter_mask(&mut self, m: &[u8]) {
+        self.0 += m.len() as u64;
+    }
+}
+fn ps_int(v: i32) -> Vec<u8> {
+    match v {
+        -107..=107 => vec![(v + 139) as u8],
+        108..=1131 => {
+            let w = v - 108;
+            vec![247 + (w >> 8) as u8, (w & 0xFF) as u8]
+        }
+        -1131..=-108 => {
+            let w = -v - 108;
+            vec![251 + (w >> 8) as u8, (w & 0xFF) as u8]
+        }
+        _ => {
+            let b = (v as i16).to_be_bytes();
+            vec![28, b[0], b[1]]
+        }
+    }
+}
+fn index1_bytes(objs: &[Vec<u8>]) -> Vec<u8> {
+    let mut v = vec![];
+    v.extend(be16(objs.len() as u16));
+    if objs.is_empty() {
+        return v;
+    }
+    v.push(2);
+    let mut o = 1u16;
+    v.extend(be16(o));
+    for ob in objs {
+        o += ob.len() as u16;
+        v.extend(be16(o));
+    }
+    for ob in objs {
+        v.extend(ob);
+    }
+    v
+}
+fn run_dict(d: &[u8]) -> u64 {
+    use read_fonts::tables::postscript::dict::{entries, tokens};
+    let mut h = 0u64;
+    for t in tokens(d).take(5000) {
+        h = h.wrapping_mul(31).wrapping_add(t.is_ok() as u64);
+    }
+    for e in entries(d, None).take(5000) {
+        h = h.wrapping_mul(31).wrapping_add(e.is_ok() as u64);
+    }
+    h
+}
+fn run_charstring(cs: &[u8], gsubrs: &[u8], lsubrs: Option<&[u8]>) -> u64 {
+    use read_fonts::tables::postscript::{charstring, Index};
+    let g = Index::new(gsubrs, false).unwrap_or_default();
+    let l = lsubrs.map(|b| Index::new(b, false).unwrap_or_default());
+    let mut sink = NullSink(0);
+    let r = charstring::evaluate(cs, g, l, None, &mut sink);
+    sink.0 * 2 + r.is_ok() as u64
+}
+
+fn ps_cases(rng: &mut Rng, thorough: bool) -> Vec<(String, u8, Vec<u8>, Vec<u8>, Vec<u8>)> {
+    // (name, kind 0 = dict / 1 = charstring, data, global subrs index, local subrs index)
+    let mut v: Vec<(String, u8, Vec<u8>, Vec<u8>, Vec<u8>)> = vec![];
+    let dict = |name: String, d: Vec<u8>, v: &mut Vec<(String, u8, Vec<u8>, Vec<u8>, Vec<u8>)>| v.push((name, 0, d, vec![], vec![]));
+    // 1. BCD operands of every length x every terminating nibble kind, followed by an operator; every truncation
+    for (name, body) in bcd_bodies(rng) {
+        for op in [10u8, 5, 17] {
+            let mut d = vec![30u8];
+            d.extend(&body);
+            d.push(op);
+            dict(format!("{}:op{}", name, op), d.clone(), &mut v);
+        }
+        let mut d = vec![30u8];
+        d.extend(&body);
+        for k in (0..d.len()).rev().take(3) {
+            dict(format!("{}:trunc{}", name, k), d[..k].to_vec(), &mut v);
+        }
+        // several reals in a row (delta arrays) and a real as the 2nd operand
+        let mut d2 = vec![];
+        for _ in 0..3 {
+            d2.push(30);
+            d2.extend(&body);
+        }
+        d2.push(6);
+        dict(format!("{}:x3:BlueValues", name), d2, &mut v);
+    }
+    // 2. operand encodings at their boundaries, with 0..4 following bytes
+    for b0 in [28u8, 29, 30, 31, 32, 139, 246, 247, 250, 251, 254, 255, 0, 12, 21, 22, 27] {
+        for fill in [0x00u8, 0x7F, 0x80, 0xFF] {
+            for n in 0..=5usize {
+                let mut d = vec![b0];
+                d.extend(vec![fill; n]);
+                dict(format!("operand:b0={}:fill={}:n={}", b0, fill, n), d.clone(), &mut v);
+                d.push(10);
+                dict(format!("operand:b0={}:fill={}:n={}:op", b0, fill, n), d, &mut v);
+            }
+        }
+    }
+    // 3. operand stack depth around the limits, followed by every one-byte and two-byte operator
+    let depths: Vec<usize> = (0..=4).chain(46..=52).chain(510..=516).collect();
+    for depth in &depths {
+        for op in (0u16..=31).chain((0..=40).map(|x| 0x0C00 | x)).chain([0x0CFF]) {
+            let mut d = vec![];
+            for i in 0..*depth {
+                d.extend(ps_int((i as i32 * 37) % 2000 - 1000));
+            }
+            if op >> 8 == 0x0C {
+                d.push(12);
+                d.push(op as u8);
+            } else if op == 28 || op == 29 || op == 30 {
+                continue;
+            } else {
+                d.push(op as u8);
+            }
+            dict(format!("stack:depth={}:op={:#x}", depth, op), d, &mut v);
+        }
+    }
+    // 4. all two-byte operators alone / truncated escape
+    for x in 0..=255u8 {
+        dict(format!("escape:{}", x), vec![12, x], &mut v);
+        dict(format!("escape:{}:1operand", x), vec![140, 12, x], &mut v);
+    }
+    dict("escape:truncated".into(), vec![12], &mut v);
+    // 5. random token streams
+    let nrand = if thorough { 60_000 } else { 12_000 };
+    for i in 0..nrand {
+        let mut d = vec![];
+        for _ in 0..(1 + rng.below(24)) {
+            match rng.below(9) {
+                0..=3 => d.extend(ps_int(rng.range(-1200, 1200) as i32)),
+                4 => {
+                    d.push(29);
+                    d.extend(be32(rng.next_u32()));
+                }
+                5 => {
+                    d.push(30);
+                    let n = rng.below(36) as usize;
+                    let nib: Vec<u8> = (0..n).map(|_| *rng.pick(&[0u8, 1, 2, 9, 5, 0xA, 0xB, 0xC, 0xE, 7, 3, 0xD])).chain([0xF]).collect();
+                    d.extend(pack_nibbles(&nib));
+                }
+                6 => {
+                    d.push(12);
+                    d.push(rng.below(42) as u8);
+                }
+                _ => d.push(rng.below(28) as u8),
+            }
+        }
+        if rng.chance(1, 5) {
+            let k = rng.below(d.len() as u64 + 1) as usize;
+            d.truncate(k);
+        }
+        dict(format!("random:{}", i), d, &mut v);
+    }
+    // 6. charstrings
+    let cs = |name: String, d: Vec<u8>, g: Vec<u8>, l: Vec<u8>, v: &mut Vec<(String, u8, Vec<u8>, Vec<u8>, Vec<u8>)>| v.push((name, 1, d, g, l));
+    let empty = index1_bytes(&[]);
+    // stack depth around the limits x every operator
+    for depth in (0..=6).chain(46..=52).chain(510..=516) {
+        for op in (0u16..=31).chain((0..=40).map(|x| 0x0C00 | x)) {
+            if op == 28 {
+                continue;
+            }
+            let mut d = vec![];
+            for i in 0..depth {
+                d.extend(ps_int((i as i32 * 53) % 400 - 200));
+            }
+            if op >> 8 == 0x0C {
+                d.push(12);
+                d.push(op as u8);
+            } else {
+                d.push(op as u8);
+            }
+            // mask bytes / trailing data for hintmask-like operators
+            d.extend([0xFFu8; 4]);
+            d.push(14);
+            cs(format!("cs:depth={}:op={:#x}", depth, op), d, empty.clone(), empty.clone(), &mut v);
+        }
+    }
+    // hintmask / cntrmask with stem counts around byte boundaries and the 96-stem limit; mask bytes 0..14
+    for stems in [0usize, 1, 7, 8, 9, 47, 48, 95, 96, 97, 128, 255, 256] {
+        for maskop in [19u8, 20] {
+            for mask_bytes in [0usize, 1, 11, 12, 13, 14, 33] {
+                for via in [1u8, 3, 18, 23, 0] {
+                    let mut d = vec![];
+                    for i in 0..(2 * stems).min(512) {
+                        d.extend(ps_int(1 + (i as i32 % 5)));
+                    }
+                    if via != 0 {
+                        d.push(via); // hstem / vstem / hstemhm / vstemhm, or implicit vstem via the mask operator
+                    }
+                    d.push(maskop);
+                    d.extend(vec![0xAAu8; mask_bytes]);
+                    d.push(14);
+                    cs(format!("cs:stems={}:mask={}:bytes={}:via={}", stems, maskop, mask_bytes, via), d, empty.clone(), empty.clone(), &mut v);
+                }
+            }
+        }
+    }
+    // subroutine nesting around the limit: chain subr j -> j+1, self recursion, global <-> local ping-pong
+    for chain in [0usize, 1, 8, 9, 10, 11, 12, 20] {
+        for global in [false, true] {
+            let call = if global { 29u8 } else { 10 };
+            let mut subs: Vec<Vec<u8>> = vec![];
+            for j in 0..chain {
+                let mut sb = ps_int(j as i32 + 1 - 107);
+                sb.push(call);
+                sb.push(11);
+                subs.push(sb);
+            }
+            subs.push(vec![14]);
+            let ix = index1_bytes(&subs);
+            let mut d = ps_int(-107);
+            d.push(call);
+            let (g, l) = if global { (ix.clone(), empty.clone()) } else { (empty.clone(), ix.clone()) };
+            cs(format!("cs:chain={}:global={}", chain, global), d, g, l, &mut v);
+        }
+    }
+    {
+        // self recursion and ping-pong
+        let mut sb = ps_int(-107);
+        sb.push(10);
+        let ix = index1_bytes(&[sb.clone()]);
+        let mut d = ps_int(-107);
+        d.push(10);
+        cs("cs:self-recursion".into(), d.clone(), empty.clone(), ix.clone(), &mut v);
+        let mut gb = ps_int(-107);
+        gb.push(10);
+        let mut lb = ps_int(-107);
+        lb.push(29);
+        cs("cs:ping-pong".into(), d.clone(), index1_bytes(&[gb]), index1_bytes(&[lb]), &mut v);
+        for idx in [-108i32, -107, -106, 0, 1, 107, 1131, 32767, -32768] {
+            let mut d = ps_int(idx);
+            d.push(10);
+            cs(format!("cs:callsubr:{}", idx), d.clone(), empty.clone(), ix.clone(), &mut v);
+            let mut d = ps_int(idx);
+            d.push(29);
+            cs(format!("cs:callgsubr:{}", idx), d, ix.clone(), empty.clone(), &mut v);
+        }
+    }
+    // random charstrings
+    for i in 0..nrand {
+        let mut d = vec![];
+        for _ in 0..(1 + rng.below(30)) {
+            match rng.below(8) {
+                0..=3 => d.extend(ps_int(rng.range(-1200, 1200) as i32)),
+                4 => {
+                    d.push(255);
+                    d.extend(be32(rng.next_u32()));
+                }
+                5 => {
+                    d.push(12);
+                    d.push(rng.below(40) as u8);
+                }
+                _ => d.push(rng.below(32) as u8),
+            }
+        }
+        let sub = vec![ps_int(3), vec![11]].concat();
+        cs(format!("cs:random:{}", i), d, index1_bytes(&[sub.clone()]), index1_bytes(&[sub, vec![14]]), &mut v);
+    }
+    v
+}
+
+/// fonts whose Top DICT (CFF / CFF2) bytes are replaced by a structured stream of the same length
+fn ps_font_cases(fonts: &[BaseFont], rng: &mut Rng) -> Vec<(String, Vec<u8>)> {
+    let mut out = vec![];
+    let bodies = bcd_bodies(rng);
+    for f in fonts {
+        let b = f.bytes.as_ref();
+        let Ok(font) = FontRef::new(b) else { continue };
+        let mut regions: Vec<(&str, usize, usize)> = vec![];
+        if let Ok(cff) = font.cff() {
+            if let Ok(td) = cff.top_dicts().get(0) {
+                regions.push(("CFF.top", off_in(b, td) as usize, td.len()));
+                // private dict range from the top dict
+                for e in read_fonts::tables::postscript::dict::entries(td, None).flatten() {
+                    if let read_fonts::tables::postscript::dict::Entry::PrivateDictRange(r) = e {
+                        if let Some(pd) = cff.offset_data().as_bytes().get(r.clone()) {
+                            regions.push(("CFF.private", off_in(b, pd) as usize, pd.len()));
+                        }
+                    }
+                }
+            }
+        }
+        if let Ok(cff2) = font.cff2() {
+            let td = cff2.top_dict_data();
+            regions.push(("CFF2.top", off_in(b, td) as usize, td.len()));
+        }
+        for (rname, o, l) in regions {
+            if l < 3 {
+                continue;
+            }
+            for k in 0..400usize {
+                let (bn, body) = &bodies[(k * 37 + 11) % bodies.len()];
+                let mut d = vec![30u8];
+                d.extend(body);
+                d.push(*rng.pick(&[10u8, 5, 17, 18, 6, 11]));
+                // keep the original tail so that later operators (charstrings offset, private range) survive when the stream is short
+                let mut nb = b.to_vec();
+                let at = if k % 2 == 0 { 0 } else { rng.below(l as u64) as usize };
+                for (i, x) in d.iter().enumerate() {
+                    if at + i < l {
+                        nb[o + at + i] = *x;
+                    }
+                }
+                out.push((format!("{}:{}@{}:{}", f.name, rname, at, bn), nb));
+            }
+        }
+    }
+    out
+}
+
+fn ps_search(seed: u64, thorough: bool, st: &mut Stats) {
+    let mut rng = Rng::new(seed ^ 0x5053_5053);
+    let cases = Arc::new(ps_cases(&mut rng, thorough));
+    let fonts = load_fonts();
+    let fcases = Arc::new(ps_font_cases(&fonts, &mut rng));
+    let nthreads = 16usize;
+    let fails: Arc<Mutex<Vec<(usize, String, String, String)>>> = Arc::new(Mutex::new(vec![]));
+    let mut handles = vec![];
+    for th in 0..nthreads {
+        let (cases, fcases, fails) = (cases.clone(), fcases.clone(), fails.clone());
+        handles.push(
+            std::thread::Builder::new()
+                .stack_size(64 << 20)
+                .spawn(move || {
+                    let mut i = th;
+                    while i < cases.len() {
+                        let (name, kind, d, g, l) = &cases[i];
+                        let (d2, g2, l2, k2) = (d.clone(), g.clone(), l.clone(), *kind);
+                        let r = catch(move || if k2 == 0 { run_dict(&d2) } else { run_charstring(&d2, &g2, Some(&l2)) });
+                        if let Err(m) = r {
+                            fails.lock().unwrap().push((i, name.clone(), m, last_loc()));
+                        } else if *kind == 0 {
+                            // purity: the same stream inside another buffer
+                            let mut pad = vec![0x1Eu8; 3];
+                            pad.extend(d);
+                            let d3 = d.clone();
+                            let a = catch(move || run_dict(&d3));
+                            let b = catch(move || run_dict(&pad[3..]));
+                            if a != b {
+                                fails.lock().unwrap().push((i, name.clone(), "impure: result depends on buffer position".into(), String::new()));
+                            }
+                        }
+                        i += 16;
+                    }
+                    let mut j = th;
+                    while j < fcases.len() {
+                        let (name, bytes) = &fcases[j];
+                        let b2 = bytes.clone();
+                        if let Err(m) = catch(move || observe(&b2, 20_000)) {
+                            fails.lock().unwrap().push((1_000_000 + j, name.clone(), m, last_loc()));
+                        }
+                        j += 16;
+                    }
+                })
+                .unwrap(),
+        );
+    }
+    for h in handles {
+        let _ = h.join();
+    }
+    st.evaluations += (cases.len() + fcases.len()) as u64;
+    st.add("ps.dict_and_charstring_cases", cases.len() as u64);
+    st.add("ps.font_cases", fcases.len() as u64);
+    for (name, kind, _, _, _) in cases.iter() {
+        let k = name.split(':').next().unwrap_or("");
+        st.count(&format!("ps.{}.{}", if *kind == 0 { "dict" } else { "cs" }, k));
+    }
+    let mut f = std::mem::take(&mut *fails.lock().unwrap());
+    f.sort();
+    let mut seen = std::collections::BTreeSet::new();
+    for (_, name, msg, loc) in f {
+        st.count("ps.failures");
+        let m60: String = msg.chars().take(60).collect();
+        if seen.insert((loc.clone(), m60.clone())) {
+            st.oracle_failure(json!({"key": format!("ps:{}:{}", name, m60), "input": name, "panic": msg, "at": loc}));
+        }
+    }
+}
+
 fn main() {
     install_hook();
     let args: Vec<String> = std::env::args().collect();
@@ -2275,10 +2745,12 @@ fn main() {
         900,
     );
     correspondence(&mut rng, &mut cw, &mut st, thorough);
+    correspondence_bcd(&mut rng, &mut cw, &mut st);
     let shards = cw.finish();
     st.v.insert("shards".into(), shards.into());
     st.v.insert("model_cases".into(), cw.len().into());
     if std::env::var("C01_NO_FUZZ").is_err() {
+        ps_search(seed, thorough, &mut st);
         fuzz(seed, thorough, &mut st, &dir);
     }
     st.write(
